@@ -5,7 +5,9 @@ graders) and the class dicts of athlib classes.  Small values are deep-copied an
 (so aliases held elsewhere stay valid); large containers (data tables) are restored by identity and their
 content is fingerprinted so that an in-place mutation is detected rather than silently carried over.
 """
-import sys, types, re, copy, hashlib, decimal, datetime, fractions
+import sys, types, re, copy, hashlib, decimal, datetime, fractions, weakref, gc
+
+WEAK = (weakref.WeakValueDictionary, weakref.WeakKeyDictionary, weakref.WeakSet)
 
 # values that are immutable and compare by value: counted as one unit, rebound rather than copied, fingerprinted by repr
 ATOMS = (str, bytes, int, float, bool, type(None), decimal.Decimal, complex, range, fractions.Fraction,
@@ -214,7 +216,11 @@ class SharedState(object):
             # the exact set of names present now: any other name found at restore time is removed
             snap[('__allkeys__', label)] = ('keys', frozenset(vars(h).keys()), None)
             for k, v in self._items(kind, h):
-                if _immutable(v):
+                if isinstance(v, WEAK):
+                    # a weak container: its members live only while somebody else holds them; restored to the members it had (strong references kept here)
+                    snap[(label, k)] = ('weak', v, list(v.items()) if hasattr(v, 'items') else list(v))
+                    self._has_weak = True
+                elif _immutable(v):
                     snap[(label, k)] = ('rebind', v, None)
                 elif hasattr(v, '__dict__') and type(v).__module__.startswith(self.prefix):
                     snap[(label, k)] = ('ident', v, None)           # its own holder covers the content
@@ -285,6 +291,18 @@ class SharedState(object):
                             pass
             for k, (how, v, extra) in bl.get(label, ()):
                 if how == 'keys':
+                    continue
+                if how == 'weak':
+                    if d.get(k, self) is not v:
+                        setattr(h, k, v)
+                    gc.collect()
+                    v.clear()
+                    if hasattr(v, 'items'):
+                        for kk, vv in extra:
+                            v[kk] = vv
+                    else:
+                        for vv in extra:
+                            v.add(vv)
                     continue
                 if how == 'objs':
                     if d.get(k, self) is not v:
